@@ -289,6 +289,20 @@ def shrink_case(mod, case, still_fails, budget=300):
 
 # ------------------------------------------------------------------ the check
 
+def iter_laws(mod, rng, tier, ctx):
+    """run the property's law checks; an exception escaping from them (the implementation returned something on which the
+    statement cannot even be evaluated, e.g. a table that lost a column) is itself reported as a finding, not as a crash"""
+    try:
+        for f in mod.laws(rng, tier, ctx):
+            yield f
+    except Timeout:
+        yield Finding('violation', dict(tag='law-timeout', lines=[]), 'a call made by the law checks did not return')
+    except Exception as e:
+        tb = traceback.format_exc().strip().split('\n')
+        yield Finding('violation', dict(tag='law-exception', lines=[]),
+                      'evaluating the property statement on the implementation\'s output raised %s: %s | %s' % (type(e).__name__, str(e)[:200], ' / '.join(t.strip() for t in tb[-6:-1])[:600]))
+
+
 def evaluate_cases(mod, cases, timeout):
     """returns (findings, stats) for a list of cases"""
     findings = []
@@ -367,7 +381,7 @@ def run_check(pid, tier, seed, replay=None):
     findings.extend(f1)
     law_count = 0
     if hasattr(mod, 'laws') and not replay:
-        for f in mod.laws(rng, tier, dict(stats=stats)):
+        for f in iter_laws(mod, rng, tier, dict(stats=stats)):
             if isinstance(f, Finding):
                 findings.append(f)
             else:
@@ -397,7 +411,7 @@ def run_check(pid, tier, seed, replay=None):
         searched = len(extra)
         f2, stats2, _ = evaluate_cases(mod, extra, timeout)
         if hasattr(mod, 'laws'):
-            for f in mod.laws(rng2, 'thorough', dict(stats=stats2, divergences=divs)):
+            for f in iter_laws(mod, rng2, 'thorough', dict(stats=stats2, divergences=divs)):
                 if isinstance(f, Finding):
                     f2.append(f)
                 else:
